@@ -38,6 +38,8 @@ ob("O-C10-chars3", ["C10", "C13", "C05"], J, "c10_skip_take_chars_3", "skip_take
 for kind, fn in (("text", "skip_take_chars (character positions)"), ("bytes", "skip_take_bytes")):
     ob(f"O-C10-range-{kind}", ["C10", "C02", "C13"], J, f"c10_range_dispatch_{kind}", f"Val::range (`.[a:b]` read) on a {kind} string asks {fn} and returns exactly the part that function selects (the position functions are replaced by ghost stubs that record who was called; their own contracts are O-C10-chars*, O-C10-skiptake-bytes)", [LIB + "Val::range", LIB + "Val::range_int"], label="point", kind="point", stubs=["skip_take_chars", "skip_take_bytes"])
 
+ob("O-C10-splice", ["C10", "C05"], J, "c10_bytes_splice_enum", "bytes_splice(b, skip, take, r) leaves old[..skip] ++ r ++ old[skip+take..] (growing, shrinking, inserting, deleting), the kernel behind slice updates on strings", [LIB + "bytes_splice"], label="bounded", bound="every (skip, take) inside a 4-byte buffer x replacement lengths 0..=3, enumerated concretely", composes_dependency=True)
+
 # ------------------------------------------------------------------------------------ C08
 ob("O-C08-float", ["C08"], J, "c08_float_cmp_order", "float_cmp is a total preorder on non-NaN floats (reflexive, antisymmetric, transitive over all triples), float_eq <=> Equal, and it agrees with IEEE <, ==, > (so -inf < finite < +inf, -0 == +0)", [NUM + "float_cmp", NUM + "float_eq"])
 for k, kinds in (("ii", "Int,Int"), ("if", "Int,Float"), ("fi", "Float,Int"), ("ff", "Float,Float")):
@@ -72,6 +74,8 @@ ob("O-C05-length", ["C05"], J, "c05_num_length", "Num::length (absolute value) i
 ob("O-C08-big", ["C08", "C09"], J, "c08_big_points", "points: a big integer against +/-infinity and a small float in both argument orders; 5 as Int / BigInt / Float and 0 as Int / BigInt mutually equal, ordered Equal and hashing alike; big integers beyond the machine range ordered among themselves and against isize::MAX / MIN", [NUM + "Num::cmp", NUM + "Num::eq", NUM + "Num::hash"], label="point", kind="point", composes_dependency=True)
 ob("O-C08-big-big", ["C08"], J, "c08_big_cmp_big", "two big integers of any value up to 128 bits: cmp is the mathematical order and == is equality of values (integers beyond 2^53 compared among integers)", [NUM + "Num::cmp", NUM + "Num::eq"], composes_dependency=True, tier="thorough", timeout=3000)
 ob("O-C08-big-inf", ["C08"], J, "c08_big_cmp_inf", "a big integer of any value up to 128 bits against +/-Infinity, in both argument orders: -Infinity < every integer < Infinity, never equal", [NUM + "Num::cmp", NUM + "Num::eq"], composes_dependency=True, tier="thorough", timeout=3000)
+ob("O-C08-val-strings", ["C08"], J, "c08_val_text_bytes_points", "points: a text string and a byte string with equal bytes are ==, ordered Equal in both directions and feed the hasher the same stream; different bytes order bytewise", [LIB + "Val::cmp", LIB + "Val::eq", LIB + "Val::hash"], label="point", kind="point", composes_dependency=True)
+ob("O-C08-val-kinds", ["C08"], J, "c08_val_kind_order_points", "points: Val::cmp follows the documented kind sequence null < false < true < numbers < strings < arrays on one representative per kind (49 ordered pairs); == holds only on the diagonal", [LIB + "Val::cmp", LIB + "Val::eq"], label="point", kind="point", composes_dependency=True)
 ob("O-C09-big-obs", ["C09", "C10"], J, "c09_big_observers", "for every big integer up to 128 bits: is_int; as_isize is Some(value) iff it fits a machine integer; as_pos_usize is (value >= 0, |value|) with zero non-negative, None beyond usize; a big integer that fits agrees with the machine integer of the same value (equal integers behave identically however stored)", [NUM + "Num::is_int", NUM + "Num::as_isize", NUM + "Num::as_pos_usize"], composes_dependency=True)
 ob("O-C09-from-integral", ["C09", "C14"], J, "c09_from_integral", "Num::from_integral / Val::from(usize): a machine integer when the value fits, else the big integer of exactly that value, for every u64, i128 and usize", [NUM + "Num::from_integral", LIB + "Val::from<usize>"], composes_dependency=True)
 ob("O-C09-saturate", ["C09", "C05"], J, "c09_bigint_saturated", "bigint_to_int_saturated (string repetition by a big integer): the value clamped into the machine-integer range, for every big integer up to 128 bits", [LIB + "bigint_to_int_saturated"], composes_dependency=True)
@@ -182,7 +186,7 @@ CFG = {
         "C08": {
             "level": "proof",
             "explanation": "Order axioms, eq/cmp coherence, agreement with the mathematical order, and hash coherence (over the byte stream fed to any hasher) of the real Num::{cmp,eq,hash} and float_cmp, for all machine integers and all non-NaN floats (pairs and triples), one harness per combination of kinds. Loop-free (hash loops closed by unwinding assertions), hence complete.",
-            "not_decided": "Dec kinds; big integers beyond 128 bits, against finite floats and in hashing beyond the points of O-C08-big (BigInt::to_f64 on a symbolic value is modelled by CBMC through an unconstrained powi, which gives spurious failures), machine integer against big integer beyond the points (timeout); Val-level kind sequence, strings, arrays, objects; sort/unique/group_by/bsearch/array subtraction using this order (std sort, BTreeSet, binary_search assumed correct given a total order); indexmap lookup given coherent Eq/Hash",
+            "not_decided": "Dec kinds; big integers beyond 128 bits, against finite floats and in hashing beyond the points of O-C08-big (BigInt::to_f64 on a symbolic value is modelled by CBMC through an unconstrained powi, which gives spurious failures), machine integer against big integer beyond the points (timeout); the Val-level kind sequence beyond one representative per kind (O-C08-val-kinds), objects (index map) and non-empty arrays; sort/unique/group_by/bsearch/array subtraction using this order (std sort, BTreeSet, binary_search assumed correct given a total order); indexmap lookup given coherent Eq/Hash",
             "assumptions": ["the property's own domain restriction is applied: NaN excluded; integers beyond 2^53 compared only among integers or against infinities"],
         },
         "C09": {
